@@ -62,6 +62,17 @@ Theorem C04_wh_drift_conserves_Lz : forall m0 ms, m0 <> 0 -> C12.ProofsL.etas_ok
   JM j' = JM j -> com_lz j' = com_lz j -> body_lz j' = body_lz j -> totLz m0 ms s' = totLz m0 ms s.
 Proof. exact wh_drift_conserves_Lz. Qed.
 Print Assumptions C04_wh_drift_conserves_Lz.
+(* ... and the library's own Kepler step (C03's model, bit-exact with reb_whfast_kepler_solver) is such an f-g step
+   whenever X solves the universal Kepler equation *)
+Theorem C04_kepler_step_conserves_lz : forall (p : C03.Proofs.P6) (M dt r0 beta X G0 G1 G2 G3 : R),
+  C03.Proofs.kepler_hyp p M dt r0 beta X G0 G1 G2 G3 ->
+  forall x y z vx vy vz,
+  let '(x', y', _, vx', vy', _) :=
+    C03.Model.fg_apply RNum (C03.Model.fg_coeffs RNum M dt (1 / r0) (1 / C03.Proofs.new_radius p M r0 beta G1 G2) G1 G2 G3)
+                       (x, y, z, vx, vy, vz) in
+  x' * vy' - y' * vx' = x * vy - y * vx.
+Proof. exact kepler_step_conserves_lz. Qed.
+Print Assumptions C04_kepler_step_conserves_lz.
 Theorem C04_fg_step_and_com_drift_conserve_lz :
   (forall f g fd gd x y vx vy, f * gd - fd * g = 1 ->
      (f * x + g * vx) * (fd * y + gd * vy) - (f * y + g * vy) * (fd * x + gd * vx) = x * vy - y * vx) /\
